@@ -21,6 +21,7 @@ import (
 	"hash/maphash"
 	"runtime/debug"
 	"sort"
+	"strconv"
 	"strings"
 
 	"golang.org/x/tools/go/cfg"
@@ -493,8 +494,8 @@ func (x *Exec) Run() {
 						}
 					}
 				}
-				if !b.Live {
-					continue
+				if !b.Live || b.Kind == cfg.KindSelectAfterCase {
+					continue // dead code, or the "no arm ready" tail of a select without default (blocks; not an exit)
 				}
 				x.exit(st, kind, pos, nil)
 			}
@@ -745,9 +746,14 @@ func (x *Exec) execAssign(st *State, s *ast.AssignStmt, env *Env) []*State {
 		for _, c := range states {
 			tok := x.Tok(s.Pos())
 			lk := x.LocKey(c, s.Lhs[0], env)
+			old, rv := x.ValueName(c, s.Lhs[0], env), x.ValueName(c, s.Rhs[0], env)
+			nv := Sym("opassign" + tok)
+			if len(old)+len(rv) < 120 && !strings.Contains(old, tok) && !strings.Contains(old, "(") {
+				nv = Sym("(" + old + strings.TrimSuffix(s.Tok.String(), "=") + rv + ")")
+			}
 			c = x.kill(x.Forget(c, tok), lk, tok)
-			c = c.Bind(lk, Sym("opassign"+tok))
-			out = append(out, x.Spec.Assign(x, c, s.Lhs[0], s.Rhs[0], Sym("opassign"+tok)))
+			c = c.Bind(lk, nv).Unbind("~" + lk)
+			out = append(out, x.Spec.Assign(x, c, s.Lhs[0], s.Rhs[0], nv))
 		}
 		return out
 	}
@@ -1675,6 +1681,35 @@ func (x *Exec) evalCmp2(st *State, a ast.Expr, op token.Token, b ast.Expr, envA,
 	if isIntegerType(x.P.TypeOf(a)) || isIntegerType(x.P.TypeOf(b)) {
 		ca, oka := x.P.ConstInt(a)
 		cb, okb := x.P.ConstInt(b)
+		// a variable currently bound to a literal constant
+		if !oka && ta.K == KConst && isNumeric(ta.S) {
+			if v, err := strconv.ParseInt(ta.S, 10, 64); err == nil {
+				ca, oka = v, true
+			}
+		}
+		if !okb && tb.K == KConst && isNumeric(tb.S) {
+			if v, err := strconv.ParseInt(tb.S, 10, 64); err == nil {
+				cb, okb = v, true
+			}
+		}
+		if oka && okb {
+			var r bool
+			switch op {
+			case token.EQL:
+				r = ca == cb
+			case token.NEQ:
+				r = ca != cb
+			case token.LSS:
+				r = ca < cb
+			case token.LEQ:
+				r = ca <= cb
+			case token.GTR:
+				r = ca > cb
+			case token.GEQ:
+				r = ca >= cb
+			}
+			return outs(st, r)
+		}
 		if oka && !okb {
 			// c op X  ==  X flip(op) c
 			return x.intConstCmp(st, tb.S, core.FlipOp(op), ca, isUnsigned(x.P.TypeOf(b)) || strings.HasPrefix(tb.S, "len("))
